@@ -20,6 +20,8 @@ def hash_tree(root, skip=(".git", ".lake", ".cache", "__pycache__", "evidence", 
     for d, dirs, files in os.walk(root):
         dirs[:] = sorted(x for x in dirs if x not in skip)
         for f in sorted(files):
+            if f in ("Audit.lean", "lake-manifest.json"):
+                continue
             p = os.path.join(d, f)
             if os.path.islink(p) or not os.path.isfile(p):
                 continue
@@ -145,8 +147,14 @@ def ensure_built(log=print):
                 info["modules"][mod] = True
                 audit_imports.append("import " + mod)
                 text = re.sub(r"/-.*?-/", "", open(src).read(), flags=re.S)
-                for t in re.findall(r"^theorem\s+([\w.']+)", text, flags=re.M):
-                    audit_lines.append("#print axioms Moq." + t)
+                ns = ""
+                for line in text.splitlines():
+                    mm = re.match(r"^namespace\s+([\w.]+)", line)
+                    if mm:
+                        ns = mm.group(1) + "."
+                    mm = re.match(r"^theorem\s+([\w.']+)", line)
+                    if mm:
+                        audit_lines.append("#print axioms " + ns + mm.group(1))
             else:
                 errs = [l for l in (o + e).splitlines() if "error" in l][:6]
                 info["modules"][mod] = "; ".join(errs)[:900] or "build failed"
